@@ -31,7 +31,9 @@
 (*   escrowCoins coins of the pair's denom held by the erc20 module account*)
 (*   coinSupply  bank supply of the denom                                  *)
 (*   coinBal     [acct -> amount]   (holders and the thief "t")            *)
-(*   coinOther   coinSupply - escrowCoins - Sum(coinBal)                   *)
+(*   ibcEscrow   coins of the denom in the ICS-20 channel escrow account   *)
+(*               (ERC20 origin: coins in flight over IBC; "0" for vouchers)*)
+(*   coinOther   coinSupply - escrowCoins - ibcEscrow - Sum(coinBal)       *)
 (*   tokenSupply totalSupply()                                             *)
 (*   tokenBal    [acct -> amount]   (the same accounts and the module "m") *)
 (*   tokenOther  tokenSupply - Sum(tokenBal)                               *)
@@ -64,7 +66,7 @@ Pos(x) == BigSign(x) > 0
 AcctsOf(s) == DOMAIN s.coinBal
 
 \* the two representations (everything P compares when it says "unchanged")
-Coins(s)  == <<s.escrowCoins, s.coinSupply, s.coinBal, s.coinOther>>
+Coins(s)  == <<s.escrowCoins, s.coinSupply, s.coinBal, s.ibcEscrow, s.coinOther>>
 Tokens(s) == <<s.tokenSupply, s.tokenBal, s.tokenOther>>
 SameBal(s, t) == Coins(s) = Coins(t) /\ Tokens(s) = Tokens(t)
 
@@ -137,10 +139,16 @@ BankSendOK(s, t, from, to, amt) ==
        ELSE /\ t.tokenSupply = s.tokenSupply /\ t.escrowCoins = s.escrowCoins
             /\ BigEq(BigSub(t.coinSupply, s.coinSupply), BigSub(t.tokenBal[Module], s.tokenBal[Module]))
 
-\* an IBC callback that credits `inflow` coins to account a (voucher minted on receive / refund)
-\* and then converts c >= 0 of a's coins into a's tokens
+\* an IBC callback that credits `inflow` coins to account a - a voucher minted on receive /
+\* refund (coin origin), or the pair's own coins released from the channel escrow (ERC20
+\* origin: the denomination is native here) - and then converts c >= 0 of a's coins into a's
+\* tokens
+IbcCredit(s, a, inflow) ==
+    IF s.kind = "coin"
+    THEN [s EXCEPT !.coinBal = Plus(@, a, inflow), !.coinSupply = BigAdd(@, inflow)]
+    ELSE [s EXCEPT !.coinBal = Plus(@, a, inflow), !.ibcEscrow = BigSub(@, inflow)]
 IbcInOK(s, t, a, inflow) ==
-    LET s1 == [s EXCEPT !.coinBal = Plus(@, a, inflow), !.coinSupply = BigAdd(@, inflow)]
+    LET s1 == IbcCredit(s, a, inflow)
         c  == BigSub(s1.coinBal[a], t.coinBal[a]) IN
     /\ BigSign(c) >= 0
     /\ SameBal(t, C2T(s1, a, a, c))
@@ -156,6 +164,10 @@ StepOK(e, s, t) ==
            [] e.ev = "bank_send" -> BankSendOK(s, t, e.args.from, e.args.to, e.args.amt)
            [] e.ev = "ibc_recv" -> IbcInOK(s, t, e.args.to, e.args.amt)
            [] e.ev \in {"ibc_ack", "ibc_timeout"} -> IbcInOK(s, t, e.args.from, e.args.refund)
+           [] e.ev = "ibc_out" ->      \* coins leave over IBC: escrowed in the channel account
+                 SameBal(t, [s EXCEPT !.coinBal = Minus(@, e.args.from, e.args.amt),
+                                      !.ibcEscrow = BigAdd(@, e.args.amt)]) \/ SameBal(t, s)
+           [] e.ev = "evm_approve" -> SameBal(t, s)    \* an approval is not a conversion
            [] e.ev = "toggle" -> SameBal(t, s)
            [] e.ev = "holder_burn" ->
                  /\ Coins(t) = Coins(s)
@@ -169,9 +181,9 @@ StepOK(e, s, t) ==
 \* how a step reaches the conversion code
 PathOf(ev) ==
     CASE ev \in {"convert_coin", "convert_erc20"} -> "msg"
-      [] ev = "evm_transfer" -> "hook"
+      [] ev \in {"evm_transfer", "evm_approve"} -> "hook"
       [] ev = "bank_send" -> "bank"
-      [] ev \in {"ibc_recv", "ibc_ack", "ibc_timeout"} -> "ibc"
+      [] ev \in {"ibc_recv", "ibc_ack", "ibc_timeout", "ibc_out"} -> "ibc"
       [] ev = "holder_burn" -> "burn"
       [] ev = "thief_drain" -> "drain"
       [] OTHER -> ev
@@ -292,18 +304,27 @@ MBankSend(s, from, to, amt) ==
 
 \* ICS-20 receive (voucher minted to the receiver) followed by ibc_callbacks.go OnRecvPacket,
 \* which converts the receiver's WHOLE balance; an error acknowledgement reverts everything
+\* (ERC20 origin: the coins come back out of the channel escrow, which must hold them)
 MIbcRecv(s, to, amt) ==
-    LET s1 == [s EXCEPT !.coinBal = Plus(@, to, amt), !.coinSupply = BigAdd(@, amt)] IN
-    IF ~PairUsable(s) THEN Acc(s1)
+    LET s1 == IbcCredit(s, to, amt) IN
+    IF s.kind = "erc20" /\ ~BigLE(amt, s.ibcEscrow) THEN Rej(s)
+    ELSE IF ~PairUsable(s) THEN Acc(s1)
     ELSE LET c == MConvertCoin(s1, to, to, s1.coinBal[to]) IN IF c.ok THEN c ELSE Rej(s)
 
 \* ICS-20 refund (error acknowledgement / timeout) followed by ConvertCoinToERC20FromPacket;
 \* a failing conversion (e.g. disabled pair) fails the whole callback
 MIbcRefund(s, from, amt) ==
-    LET s1 == [s EXCEPT !.coinBal = Plus(@, from, amt), !.coinSupply = BigAdd(@, amt)] IN
+    LET s1 == IbcCredit(s, from, amt) IN
     IF BigIsZero(amt) THEN Acc(s)
+    ELSE IF s.kind = "erc20" /\ ~BigLE(amt, s.ibcEscrow) THEN Rej(s)
     ELSE IF ~s.registered THEN Acc(s1)
     ELSE LET c == MConvertCoin(s1, from, from, amt) IN IF c.ok THEN c ELSE Rej(s)
+
+\* the escrow half of an outgoing ICS-20 transfer of the pair's own denomination (harness
+\* emulation of MsgTransfer: no channel exists in the scenarios)
+MIbcOut(s, from, amt) ==
+    IF BigLE(amt, s.coinBal[from])
+    THEN Acc([s EXCEPT !.coinBal = Minus(@, from, amt), !.ibcEscrow = BigAdd(@, amt)]) ELSE Rej(s)
 
 MHolderBurn(s, from, amt) ==
     IF ~s.alive \/ s.behaviour = "fakeTransferLog" THEN Acc(s)
@@ -331,6 +352,10 @@ MResult(s, ev, args) ==
       [] ev = "bank_send"     -> MBankSend(s, args.from, args.to, args.amt)
       [] ev = "ibc_recv"      -> MIbcRecv(s, args.to, args.amt)
       [] ev \in {"ibc_ack", "ibc_timeout"} -> MIbcRefund(s, args.from, args.refund)
+      [] ev = "ibc_out"       -> MIbcOut(s, args.from, args.amt)
+      \* approve(spender, amt) by a holder: an Approval log, which the hook skips; the only
+      \* allowance the state tracks is module -> thief, which a holder cannot set
+      [] ev = "evm_approve"   -> Acc(s)
       [] ev = "toggle"        -> IF s.registered THEN Acc([s EXCEPT !.enabled = ~@]) ELSE Rej(s)
       [] ev = "holder_burn"   -> MHolderBurn(s, args.from, args.amt)
       [] ev = "thief_drain"   -> MThiefDrain(s, args.amt)
@@ -347,6 +372,7 @@ InitState(k, b) ==
       escrowCoins |-> "0",
       coinBal     |-> [a \in Accts |-> IF k = "coin" /\ a \in Holders THEN InitBal ELSE "0"],
       coinSupply  |-> IF k = "coin" THEN BigMul(InitBal, BigOfInt(Cardinality(Holders))) ELSE "0",
+      ibcEscrow   |-> "0",
       coinOther   |-> "0",
       tokenBal    |-> [a \in Accts \cup {Module} |-> IF k = "erc20" /\ a \in Holders THEN InitBal ELSE "0"],
       tokenSupply |-> IF k = "erc20" THEN BigMul(InitBal, BigOfInt(Cardinality(Holders))) ELSE "0",
@@ -380,9 +406,12 @@ Next ==
        \/ \E f \in Accts, t \in Accts, x \in Amts : Do("convert_erc20", [from |-> f, to |-> t, amt |-> x])
        \/ \E f \in Accts, t \in Accts \cup {Module}, x \in Amts : Do("evm_transfer", [from |-> f, to |-> t, amt |-> x])
        \/ \E f \in Accts, t \in Accts, x \in Amts : Do("bank_send", [from |-> f, to |-> t, amt |-> x])
-       \/ st.kind = "coin" /\ \E t \in Accts, x \in Amts : Do("ibc_recv", [to |-> t, amt |-> x])
-       \/ st.kind = "coin" /\ \E f \in Accts, x \in Amts \cup {"0"} : Do("ibc_ack", [from |-> f, refund |-> x])
-       \/ st.kind = "coin" /\ \E f \in Accts, x \in Amts : Do("ibc_timeout", [from |-> f, refund |-> x])
+       \/ \E t \in Accts, x \in Amts : Do("ibc_recv", [to |-> t, amt |-> x])
+       \/ \E f \in Accts, x \in Amts \cup {"0"} : Do("ibc_ack", [from |-> f, refund |-> x])
+       \/ \E f \in Accts, x \in Amts : Do("ibc_timeout", [from |-> f, refund |-> x])
+       \/ st.kind = "erc20" /\ \E f \in Accts, x \in Amts : Do("ibc_out", [from |-> f, amt |-> x])
+       \/ \E f \in Accts : \E sp \in (Accts \ {f}) \cup {Module}, x \in Amts :
+              Do("evm_approve", [from |-> f, spender |-> sp, amt |-> x])
        \/ Do("toggle", [pair |-> "p"])
        \/ \E f \in Accts, x \in Amts : Do("holder_burn", [from |-> f, amt |-> x])
        \/ st.kind = "erc20" /\ \E x \in Amts : Do("thief_drain", [amt |-> x])
@@ -427,6 +456,10 @@ RRich(h, f) == LET rich == {a \in Accts : Pos(f[a])} IN
                IF rich # {} /\ RandomElement(1..6) # 1 THEN RandomElement(rich) ELSE RandomElement(Accts)
 RTo(h, a) == IF RandomElement(1..3) = 1 THEN a ELSE RandomElement(Accts)
 
+\* IBC callbacks of an ERC20-origin pair need coins in flight (mostly)
+RIbc(h)    == st.kind = "coin" \/ Pos(st.ibcEscrow) \/ RandomElement(1..5) = 1
+RIbcAmt(h) == IF st.kind = "erc20" /\ Pos(st.ibcEscrow) /\ RandomElement(1..5) # 1
+              THEN BigMin(RAmt(h), st.ibcEscrow) ELSE RAmt(h)
 SimNext ==
     /\ Len(hist) < MaxLen
     /\ \/ LET f == RRich(hist, st.coinBal) IN Do("convert_coin", [from |-> f, to |-> RTo(hist, f), amt |-> RAmt(hist)])
@@ -434,14 +467,35 @@ SimNext ==
        \/ LET f == RRich(hist, st.tokenBal) IN Do("evm_transfer", [from |-> f, to |-> Module, amt |-> RAmt(hist)])
        \/ LET f == RRich(hist, st.tokenBal) IN Do("evm_transfer", [from |-> f, to |-> RandomElement(Accts \cup {Module}), amt |-> RAmt(hist)])
        \/ LET f == RAcct(hist) IN Do("bank_send", [from |-> f, to |-> RandomElement(Accts), amt |-> RAmt(hist)])
-       \/ st.kind = "coin" /\ Do("ibc_recv", [to |-> RAcct(hist), amt |-> RAmt(hist)])
-       \/ st.kind = "coin" /\ Do("ibc_ack", [from |-> RAcct(hist), refund |-> RandomElement(Amts \cup {"0"})])
-       \/ st.kind = "coin" /\ Do("ibc_timeout", [from |-> RAcct(hist), refund |-> RAmt(hist)])
+       \/ RIbc(hist) /\ Do("ibc_recv", [to |-> RAcct(hist), amt |-> RIbcAmt(hist)])
+       \/ RIbc(hist) /\ Do("ibc_ack", [from |-> RAcct(hist), refund |-> IF RandomElement(1..4) = 1 THEN "0" ELSE RIbcAmt(hist)])
+       \/ RIbc(hist) /\ Do("ibc_timeout", [from |-> RAcct(hist), refund |-> RIbcAmt(hist)])
+       \/ st.kind = "erc20" /\ LET f == RRich(hist, st.coinBal) IN Do("ibc_out", [from |-> f, amt |-> RAmt(hist)])
+       \/ (RandomElement(1..2) = 1 /\ LET f == RAcct(hist) IN
+              Do("evm_approve", [from |-> f, spender |-> IF RandomElement(1..2) = 1 THEN Module ELSE RandomElement(Accts \ {f}),
+                                 amt |-> RAmt(hist)]))
        \/ ((IF st.enabled THEN RandomElement(1..4) = 1 ELSE TRUE) /\ Do("toggle", [pair |-> "p"]))
        \/ (RandomElement(1..2) = 1 /\ LET f == RRich(hist, st.tokenBal) IN Do("holder_burn", [from |-> f, amt |-> RAmt(hist)]))
        \/ st.kind = "erc20" /\ (Pos(st.allowMT) \/ RandomElement(1..4) = 1) /\ Do("thief_drain", [amt |-> RAmt(hist)])
        \/ st.behaviour = "selfDestructed" /\ st.alive /\ RandomElement(1..3) = 1 /\ Do("destroy", [pair |-> "p"])
 SimSpec == Init /\ [][SimNext \/ Emit]_vars
+
+\* a second walk for ERC20-origin pairs that concentrates on coins in flight over IBC: get coins
+\* (hook / message), send them out, let the packet time out / fail / come back
+HasCoins == \E a \in Accts : Pos(st.coinBal[a])
+SimNextIbc ==
+    /\ Len(hist) < MaxLen
+    /\ \/ LET f == RRich(hist, st.tokenBal) IN Do("evm_transfer", [from |-> f, to |-> Module, amt |-> RAmt(hist)])
+       \/ (~HasCoins /\ LET f == RRich(hist, st.tokenBal) IN Do("evm_transfer", [from |-> f, to |-> Module, amt |-> RAmt(hist)]))
+       \/ LET f == RRich(hist, st.tokenBal) IN Do("convert_erc20", [from |-> f, to |-> RTo(hist, f), amt |-> RAmt(hist)])
+       \/ (HasCoins /\ LET f == RRich(hist, st.coinBal) IN Do("ibc_out", [from |-> f, amt |-> BigMin(RAmt(hist), BigMax("1", st.coinBal[f]))]))
+       \/ (Pos(st.ibcEscrow) /\ Do("ibc_timeout", [from |-> RAcct(hist), refund |-> RIbcAmt(hist)]))
+       \/ (Pos(st.ibcEscrow) /\ Do("ibc_ack", [from |-> RAcct(hist), refund |-> RIbcAmt(hist)]))
+       \/ (Pos(st.ibcEscrow) /\ Do("ibc_recv", [to |-> RAcct(hist), amt |-> RIbcAmt(hist)]))
+       \/ (RandomElement(1..8) = 1 /\ Do("toggle", [pair |-> "p"]))
+       \/ (RandomElement(1..3) = 1 /\ Do("evm_approve", [from |-> RAcct(hist), spender |-> Module, amt |-> RAmt(hist)]))
+       \/ (st.behaviour = "selfDestructed" /\ st.alive /\ RandomElement(1..6) = 1 /\ Do("destroy", [pair |-> "p"]))
+SimSpecIbc == Init /\ [][SimNextIbc \/ Emit]_vars
 
 ---------------------------------------------------------------------------
 (* model values for the configurations (cfg files cannot write tuples) *)
